@@ -636,6 +636,7 @@ func runC17(c *Ctx) {
 	runC17Round5(c)
 	runC17LimitRecheck(c)
 	runC17Batch3(c)
+	runC17NoUseAfterHandOver(c)
 }
 
 func entryInstrOf(b *ssa.BasicBlock) ssa.Instruction { return b.Instrs[0] }
